@@ -42,6 +42,17 @@ def parserOperand : POperand → Bool
               (match m.index with | some r => parserReg r | none => true)
   | _ => true
 
+/-- what the AArch64 parser additionally guarantees of a memory operand: a scale other than 1 comes
+    from a shifted index register; an access is not pre- and post-indexed at once -/
+def parserOperandA64 : POperand → Bool
+  | .mem m => (m.scale == 1 || m.index.isSome) && !(m.pre && m.post)
+  | _ => true
+
+def parserOperandIsa (isa : Isa) (o : POperand) : Bool :=
+  parserOperand o && (match isa with
+                      | .a64 => parserOperandA64 o
+                      | .x86 => true)
+
 /-! ### what the YAML schema allows in an entry operand -/
 
 def isNullOrStr : Y → Bool
